@@ -328,6 +328,12 @@ class SymBool:
 
     __hash__ = object.__hash__
 
+    def __deepcopy__(self, memo):
+        return self
+
+    def __copy__(self):
+        return self
+
     def __repr__(self):
         return "<symbool>"
 
@@ -389,6 +395,12 @@ class Sym:
         if self.num is None:
             return P, Q
         return _mul(P, self.num), _mul(Q, self.den)
+
+    def __deepcopy__(self, memo):
+        return self  # immutable
+
+    def __copy__(self):
+        return self
 
     # -- formatting (never realise) ----------------------------------------
     def __repr__(self):
